@@ -12,6 +12,11 @@
 (*            "bad"  header-valid (work, linkage, timestamp, payouts), body*)
 (*                   invalid or built on an invalid block: accepted by     *)
 (*                   AddBlocks as a header, rejected when a reorg applies it*)
+(*            "asif" built on an invalid ancestor as if it were valid: header-*)
+(*                   valid AND valid relative to the state obtained by      *)
+(*                   applying its ancestors blindly (what a checkpoint      *)
+(*                   yields), so it passes pre-validation; no chain through *)
+(*                   its invalid ancestor is valid                          *)
 (*            "hdr"  rejected at submission (consensus.ValidateOrphan)     *)
 (*            "orphan" parent unknown to the oracle                        *)
 (*   T.id   the name under which the block's ID is known: itself, except   *)
@@ -99,7 +104,7 @@ AddValidatedRes(T, known, tip, bs) ==
 ValidatedOK(T, reqh, bs) ==
     /\ Len(bs) > 0
     /\ Linked(T, bs)
-    /\ \A i \in DOMAIN bs : T.cls[bs[i]] = "ok"
+    /\ \A i \in DOMAIN bs : T.cls[bs[i]] \in {"ok", "asif"}
     /\ T.h[T.par[bs[1]]] >= reqh
 
 (* History sample, chain/manager.go:160-184: the k most recent blocks, then exponentially       *)
